@@ -736,9 +736,12 @@ def shipped_work(args):
 def run_property(ck, prop):
     import multiprocessing as mp
     from harness.fw import Driver, REPO
+    import time as _t
+    t0 = _t.time()
     ck.run_gen("xrefops")
     ck.prove(exes=["drv_C13"])
     drv = Driver("drv_C13")
+    t1 = _t.time()
     sections = PROP_SECTIONS[prop]
     all_orders = prop == "C16"
     ngen = {"C13": (1500, 60000), "C14": (1500, 60000), "C15": (1500, 60000), "C16": (700, 30000)}[prop][0 if ck.quick else 1]
@@ -777,7 +780,10 @@ def run_property(ck, prop):
             ck.fail(case if isinstance(case, dict) else {"shipped": name}, what, key, exp, obs)
         for k, v in st.items():
             dist[k] = dist.get(k, 0) + v
+    t2 = _t.time()
     model = [select(l, sections) for l in drv.ask(reqs)]
+    ck.notes.append("wall: proof leg (incl. waiting for the build lock) %.0fs, real analysis + oracle %.0fs, model %.0fs"
+                    % (t1 - t0, t2 - t1, _t.time() - t2))
     ck.compare("xref-" + prop, ["%s [sections %s]" % (r, ",".join(sections)) if len(r) < 4000 else r[:4000] + "…" for r in reqs], real, model)
     for m in ck.corr_mismatch:
         for r, c in req2case.items():
